@@ -2,6 +2,7 @@ import BlockCiphers.Api
 import BlockCiphers.Models.Xtea
 import BlockCiphers.Models.Rc5
 import BlockCiphers.Models.Speck
+import BlockCiphers.Models.AesFixslice
 import BlockCiphers.Models.Aes
 import BlockCiphers.Models.Idea
 import BlockCiphers.Models.Twofish
@@ -31,7 +32,7 @@ def allCiphers : List CipherModel :=
 def allSpecials : List Special :=
   Models.Xtea.specials ++ Models.Rc5.specials ++ Models.Speck.specials ++
   Models.Serpent.specials ++ Models.Cast6.specials ++ Models.Des.specials ++ Models.Threefish.specials ++ Models.Rc2.specials ++ Models.Blowfish.specials ++ Models.Cast5.specials ++
-  Models.Camellia.specials ++ Models.Aria.specials ++ Models.Sm4.specials ++ Models.Magma.specials ++ Models.Belt.specials ++ Models.Twofish.specials ++ Models.Idea.specials ++ Models.Aes.specials
+  Models.Camellia.specials ++ Models.Aria.specials ++ Models.Sm4.specials ++ Models.Magma.specials ++ Models.Belt.specials ++ Models.Twofish.specials ++ Models.Idea.specials ++ Models.Aes.specials ++ Models.AesFixslice.specials
 
 def findCipher (n : String) : Option CipherModel := allCiphers.find? (fun c => c.name == n)
 def findSpecial (n : String) : Option (List String → String) :=
